@@ -437,6 +437,9 @@ theorem iteratorEnded_after_interrupt (head : Bool) (initial : List Nat) (pre : 
 UTF-8 (so `from_utf8_lossy` is the identity), no `\r` at its end (the batch reader would remove it) -/
 def PlainLine (l : List Nat) : Prop := nl ∉ l ∧ validUtf8 l = true ∧ l.getLast? ≠ some cr
 
+instance (l : List Nat) : Decidable (PlainLine l) :=
+  inferInstanceAs (Decidable (nl ∉ l ∧ validUtf8 l = true ∧ l.getLast? ≠ some cr))
+
 theorem lines_wire_plain (ls : List (List Nat)) (h : ∀ l ∈ ls, PlainLine l) : Reader.lines (wire ls) = ls.map .ok := by
   have e : wire ls = unlines ls := rfl
   rw [e, lines_unlines ls (fun l hl => (h l hl).1)]
